@@ -20,6 +20,19 @@ func (e *Engine) externModel(st *State, res ssa.Value, callee *ssa.Function, arg
 	name := callee.String()
 	rt := e.resultType(c)
 	switch name {
+	case "(*sync.Pool).Get":
+		// a package-level pool with a static New function: a pooled object is indistinguishable from a
+		// freshly created one (type, length); modelled as calling New
+		if g, ok := c.Args[0].(*ssa.Global); ok {
+			if nf := e.P.poolNew(g); nf != nil && len(st.frames) < 8 {
+				e.usedExterns["(*sync.Pool).Get on "+g.Name()+" modelled as a call of its New function (pooled objects keep the type and length they were created with)"] = true
+				e.poolCall = nf
+				return false
+			}
+		}
+		return false
+	case "(*sync.Pool).Put":
+		return true
 	case "github.com/pkg/errors.WithStack":
 		a := args[0]
 		if a.K != KIface {
@@ -132,6 +145,46 @@ func (e *Engine) globalFacts(st *State, g *ssa.Global, v Val) {
 			st.assume(eq(v.X[0], e.P.reg.tagOf(x.X.Type())))
 			if _, ok := x.X.(*ssa.Alloc); ok {
 				st.assume("(> " + v.T + " 0)")
+			}
+		}
+	case *ssa.Slice:
+		// a slice literal: known length and constant elements
+		arr, ok := x.X.(*ssa.Alloc)
+		if !ok || v.K != KSlice {
+			return
+		}
+		at, ok := arr.Type().Underlying().(*types.Pointer).Elem().Underlying().(*types.Array)
+		if !ok || x.Low != nil || x.High != nil {
+			return
+		}
+		n := at.Len()
+		st.assume(eq(v.X[1], bvLit(uint64(n), 64)))
+		st.assume(eq(v.X[0], bvLit(0, 64)))
+		st.assume("(> " + v.T + " 0)")
+		if n > 64 {
+			return
+		}
+		for _, b := range arr.Parent().Blocks {
+			for _, ins := range b.Instrs {
+				s, ok := ins.(*ssa.Store)
+				if !ok {
+					continue
+				}
+				ia, ok := s.Addr.(*ssa.IndexAddr)
+				if !ok || ia.X != ssa.Value(arr) {
+					continue
+				}
+				ic, ok1 := ia.Index.(*ssa.Const)
+				vc, ok2 := s.Val.(*ssa.Const)
+				if !ok1 || !ok2 || vc.Value == nil {
+					continue
+				}
+				cv := e.constVal(st, vc)
+				if len(cv.comps()) != 1 || len(leaves(at.Elem())) != 1 {
+					continue
+				}
+				el := e.loadElem(st, at.Elem(), v.T, bvLit(uint64(ic.Int64()), 64))
+				st.assume(eq(el.T, cv.T))
 			}
 		}
 	case *ssa.Call:
